@@ -24,7 +24,7 @@ FRIENDS = ['f1', 'f2']
 LIKED = ['jazz', 'dub']
 HATED = ['pop']
 FAVS = ['roomA', 'roomB']
-IDS = {'me': 0, 'f1': 1, 'f2': 2, 'jazz': 1, 'dub': 2, 'pop': 3, 'roomA': 1, 'roomB': 2}
+IDS = {'rootuser': 5, 'me': 0, 'f1': 1, 'f2': 2, 'jazz': 1, 'dub': 2, 'pop': 3, 'roomA': 1, 'roomB': 2}
 PORTS = [(0, 0), (60000, 0), (0, 60001), (60000, 60001)]
 PORTID = {0: 0, 60000: 6, 60001: 7}     # small nat codes for the Coq side
 RECONNECT_TIMEOUT = 10
@@ -101,6 +101,7 @@ class Sim:
         self.frames_seen = {}       # endpoint index -> number of frames already accounted for
         self.last_burst = None
         self.bursts = []
+        self.burst_parents = []
         self.pins = []
         self.stop_info = None
         self.started = False
@@ -200,6 +201,8 @@ class Sim:
             from aioslsk.protocol.primitives import PotentialParent
             w.server_send(PotentialParents.Response([PotentialParent('pp1', '9.9.9.9', 1234)]))
             w.settle(30)
+        elif kind == 'parent_up':
+            self._parent_up()
         elif kind == 'lost':
             self._lose(step[1])
         elif kind == 'lost_tracking':
@@ -250,6 +253,7 @@ class Sim:
         w, c = self.w, self.c
         ep = w.server
         inits0 = self.inits
+        parent_at_login = self.has_parent()
         auto = self.auto_login_pending and c.network.server_connection.state.name == 'CONNECTED'
         self.auto_login_pending = False
         base = len(ep.frames()) - (1 if auto else 0)
@@ -277,6 +281,40 @@ class Sim:
         if reply == 'ok' and cut is None and self.inits > inits0:
             self.last_burst = [m for m in self.frames()[base + 1:]]
             self.bursts.append(self.last_burst)
+            self.burst_parents.append(parent_at_login)
+
+    PARENT = ('par', 3, 'rootuser')      # name, advertised branch level, advertised branch root
+
+    def _parent_up(self):
+        """a distributed parent: the server proposes a potential parent, the outgoing D connection is accepted and the
+        peer advertises its branch position (the connection is independent of the server connection)"""
+        from vlib import fakes
+        from aioslsk.protocol.messages import PotentialParents, DistributedBranchLevel, DistributedBranchRoot
+        from aioslsk.protocol.primitives import PotentialParent
+        w = self.w
+        if self.c.session is None or self.c.distributed_network.parent is not None:
+            return
+        eps = []
+
+        def pc(h, p):
+            ep = fakes.Endpoint(w.net, peername=(h, p), sockname=('10.0.0.1', 50002), label='parent')
+            eps.append(ep)
+            return ep
+        old = w.peer_connect
+        w.peer_connect = pc
+        try:
+            w.server_send(PotentialParents.Response([PotentialParent(self.PARENT[0], '9.9.9.8', 2234)]))
+            w.settle(60)
+            if eps:
+                eps[0].feed(DistributedBranchLevel.Request(self.PARENT[1]).serialize())
+                eps[0].feed(DistributedBranchRoot.Request(self.PARENT[2]).serialize())
+                w.settle(80)
+        finally:
+            w.peer_connect = old
+        self.parent_eps = eps
+
+    def has_parent(self):
+        return self.c.distributed_network.parent is not None
 
     def _lose(self, reason):
         from aioslsk.protocol.messages import Ping
@@ -391,7 +429,8 @@ def run_scenario(sc):
             recs.append({'step': step, 'state': sim.stop_state if step[0] == 'stop' else sim.state(), 'outs': outs})
             if step[0] == 'stop':
                 break
-        return {'recs': recs, 'burst': sim.last_burst, 'bursts': sim.bursts, 'shares': sim.share_counts, 'stop': sim.stop_info}
+        return {'recs': recs, 'burst': sim.last_burst, 'bursts': sim.bursts, 'burst_parents': sim.burst_parents,
+                'shares': sim.share_counts, 'stop': sim.stop_info}
     finally:
         sim.close()
 
@@ -433,12 +472,16 @@ def canon_burst(msgs):
     return sorted(out, key=repr)
 
 
-def expected_burst(st, shares):
-    """What the settings say (property text), per category."""
+def expected_burst(st, shares, parent=False):
+    """What the settings say (property text), per category; the branch position is the top of the own branch (and looking for a
+    parent) unless a distributed parent is connected: then one level below the parent, in its branch, not looking."""
     port, obf = st['ports']
     out = [('SetListenPort', port, 1 if obf else 0, obf), ('CheckPrivileges',), ('SetStatus', 2), ('AddUser', 'me'),
-           ('TogglePrivateRoomInvites', st['invites']), ('SharedFoldersFiles', shares[0], shares[1]),
-           ('BranchLevel', 0), ('BranchRoot', 'me'), ('ToggleParentSearch', True)]
+           ('TogglePrivateRoomInvites', st['invites']), ('SharedFoldersFiles', shares[0], shares[1])]
+    if parent:
+        out += [('BranchLevel', Sim.PARENT[1] + 1), ('BranchRoot', Sim.PARENT[2]), ('ToggleParentSearch', False)]
+    else:
+        out += [('BranchLevel', 0), ('BranchRoot', 'me'), ('ToggleParentSearch', True)]
     out += [('AddUser', f) for f in st['friends']]
     out += [('AddInterest', i) for i in st['liked']] + [('AddHatedInterest', i) for i in st['hated']]
     if st['auto_join']:
@@ -452,9 +495,9 @@ def monitor(sc, res):
     viol = []
     recs = res['recs']
     # --- burst
-    for burst in res['bursts']:
+    for burst, par in zip(res['bursts'], res['burst_parents']):
         got = canon_burst(burst)
-        exp = expected_burst(st, res['shares'])
+        exp = expected_burst(st, res['shares'], par)
         if got != exp:
             diff_got = [x for x in got if x not in exp]
             diff_exp = [x for x in exp if x not in got]
@@ -476,6 +519,9 @@ def monitor(sc, res):
                     viol.append((K_CUT if any(r['step'][0] == 'logincut' for r in recs) else K_TRK,
                                  'tracking entries left over from a session that was lost half-way suppress the AddUser requests of the next login',
                                  {'missing': rest_exp}))
+                elif all(x[0] in ('BranchLevel', 'BranchRoot', 'ToggleParentSearch') for x in rest_got + rest_exp):
+                    viol.append(('burst-branch-position', 'the branch position advertised at login is not the current one '
+                                 f'(distributed parent connected: {par})', {'extra': rest_got, 'missing': rest_exp}))
                 else:
                     viol.append(('burst-mismatch', 'the frames sent after login differ from what the settings say',
                                  {'extra': rest_got, 'missing': rest_exp}))
@@ -694,6 +740,8 @@ def coq_event(step, sites):
         return 'Dist'
     if k == 'parents':
         return 'Parents'
+    if k == 'parent_up':
+        return 'ParentUp'
     if k == 'lost':
         return f'Lost {REASON_COQ[step[1]]}'
     if k == 'lost_tracking':
@@ -792,14 +840,15 @@ def coq_cases(cases):
             sett = (f'mkSettings {PORTID[st["ports"][0]]} {PORTID[st["ports"][1]]} {_l(str(IDS[x]) for x in st["friends"])} {_l(str(IDS[x]) for x in st["liked"])} '
                     f'{_l(str(IDS[x]) for x in st["hated"])} {_l(str(IDS[x]) for x in st["favorites"])} {_b(st["auto_join"])} {_b(st["invites"])} {_b(st["reconnect"])}')
             got = _l(coq_bmsg(t) for t in canon_burst(res['burst']))
-            brows.append(f' ({idx}, {sett}, ({PORTID[st["ports"][0]]},{PORTID[st["ports"][1]]}), ({res["shares"][0]},{res["shares"][1]}), {got})')
+            par = f'(Some ({Sim.PARENT[1]}, {IDS[Sim.PARENT[2]]}))' if res['burst_parents'][-1] else 'None'
+            brows.append(f' ({idx}, {sett}, ({PORTID[st["ports"][0]]},{PORTID[st["ports"][1]]}), ({res["shares"][0]},{res["shares"][1]}), {par}, {got})')
     body = ('Definition cases : list (nat * bool * list event * list (st * list out)) := [\n' + ';\n'.join(rows) + '].\n'
             'Definition res := map (fun c => match c with (i, auto, es, ex) => (i, firstdiff 0 (trace auto init es) ex) end) cases.\n'
             'Definition bad := filter (fun p => negb (Nat.eqb (snd p) 99)) res.\n'
             'Eval vm_compute in (map fst bad).\nEval vm_compute in (map snd bad).\n'
-            'Definition bcases : list (nat * settings * (nat * nat) * (nat * nat) * list bmsg) := [\n' + ';\n'.join(brows) + '].\n'
-            'Definition bbad := filter (fun c => match c with (i, s, p, sh, got) => negb (mseq (login_burst s p sh) got) end) bcases.\n'
-            'Eval vm_compute in (map (fun c => match c with (i, _, _, _, _) => i end) bbad).\n')
+            'Definition bcases : list (nat * settings * (nat * nat) * (nat * nat) * option (nat * nat) * list bmsg) := [\n' + ';\n'.join(brows) + '].\n'
+            'Definition bbad := filter (fun c => match c with (i, s, p, sh, par, got) => negb (mseq (login_burst s p sh par) got) end) bcases.\n'
+            'Eval vm_compute in (map (fun c => match c with (i, _, _, _, _, _) => i end) bbad).\n')
     return HEADER + body
 
 
@@ -901,6 +950,17 @@ def run(run: Run):
             st = dict(base, reconnect=True)
             explore(run, {'settings': st, 'steps': [['start', True], ['login', 'ok'], ['lost', reason], ['tick', True], ['login', reply],
                                                      ['command'], ['tick', True], ['tick', True], ['stop']]}, cases, 'relogin:' + reply)
+    # the server is still down at the first watchdog periods after an unrequested loss
+    for reason in ('READ_ERROR', 'WRITE_ERROR', 'TIMEOUT'):
+        st = dict(base, reconnect=True)
+        explore(run, {'settings': st, 'steps': [['start', True], ['login', 'ok'], ['lost', reason], ['tick', False], ['command'], ['tick', False],
+                                                 ['tick', True], ['login', 'ok'], ['command'], ['stop']]}, cases, 'server-down-then-up')
+    # a distributed parent is connected when the client logs in again (after a loss, manually or by the watchdog)
+    for rec in (True, False):
+        st = dict(base, reconnect=rec)
+        steps = [['start', True], ['login', 'ok'], ['parent_up'], ['lost', 'READ_ERROR' if rec else 'REQUESTED']]
+        steps += [['tick', True], ['login', 'ok'], ['stop']] if rec else [['stop']]
+        explore(run, {'settings': st, 'steps': steps}, cases, 'relogin-with-parent')
     # the connection is lost again while the automatic re-login waits for its reply
     for reason in REASONS:
         st = dict(base, reconnect=True)
